@@ -271,7 +271,9 @@ func (l *Layout) sp() string {
 	if l.Small {
 		return []string{"", " "}[l.C.Choose(2)]
 	}
-	return []string{"", "", " ", " ", "  ", "\t", " \t "}[l.C.Choose(7)]
+	// (blank space is whatever Unicode calls a space: a no-break space pasted from a web page, an
+	// ideographic space from a CJK input method)
+	return []string{"", "", " ", " ", "  ", "\t", " \t ", "\u00a0", "\u3000 "}[l.C.Choose(9)]
 }
 
 // sp1 is mandatory blank space.
